@@ -272,7 +272,7 @@ fn entry_json(e: &AEntry) -> Value {
 }
 
 fn lobs_json(t: &Tree, o: &LObs) -> Value {
-    let st = ["Ok", "Err IO NotFound", "Err IO other", "Err Parse", "Err other", "panic"][o.st.min(5) as usize];
+    let st = ["Ok", "Err IO NotFound", "Err IO other", "Err Parse", "Err other", "panic", "process aborted or hung"][o.st.min(6) as usize];
     json!({"status": st, "detail": o.detail,
            "delivered": o.trace.iter().map(|(i, id)| json!([t.files.get(*i).map(|f| vstr(&f.0)).unwrap_or("?".into()), id])).collect::<Vec<_>>()})
 }
@@ -309,6 +309,97 @@ fn from_json(v: &Value) -> Option<Tree> {
         root: comps(v.get("root")?.as_str()?),
         ledger: v.get("ledger")?.as_array()?.iter().filter_map(|x| x.as_u64()).collect(),
     })
+}
+
+fn tree_json(t: &Tree) -> Value {
+    json!({"property": "C11", "kind": t.kind, "root": vstr(&t.root), "ledger": t.ledger,
+           "files": t.files.iter().map(|(p, es)| json!([vstr(p), es.iter().map(entry_json).collect::<Vec<_>>()])).collect::<Vec<_>>()})
+}
+
+fn lobs_to(o: &LObs) -> Value {
+    json!({"trace": o.trace.iter().map(|(i, id)| json!([i, id])).collect::<Vec<_>>(), "st": o.st, "detail": o.detail})
+}
+
+fn lobs_from(v: &Value) -> LObs {
+    LObs {
+        trace: v["trace"].as_array().map(|a| a.iter().map(|p| (p[0].as_u64().unwrap_or(999) as usize, p[1].as_u64().unwrap_or(0))).collect()).unwrap_or_default(),
+        st: v["st"].as_u64().unwrap_or(6) as u8,
+        detail: v["detail"].as_str().unwrap_or("").to_string(),
+    }
+}
+
+fn crashed(why: &str) -> Observed {
+    let o = LObs { trace: vec![], st: 6, detail: why.to_string() };
+    Observed { fake: o.clone(), real: o, bal: 0, bal_detail: String::new() }
+}
+
+/// child mode: `okv c11-child IN OUT` observes every tree of IN (a JSON array) and writes the observations
+pub fn child(args: &[String]) {
+    let trees: Vec<Value> = serde_json::from_str(&std::fs::read_to_string(&args[0]).unwrap()).unwrap();
+    let sc = Scratch::new("c11c");
+    let mut out = Vec::new();
+    for (k, v) in trees.iter().enumerate() {
+        let t = from_json(v).unwrap();
+        let o = observe(&sc, k, &t);
+        out.push(json!({"fake": lobs_to(&o.fake), "real": lobs_to(&o.real), "bal": o.bal, "bal_detail": o.bal_detail}));
+        // flushed after every case so that the parent can see how far a dying child got
+        std::fs::write(&args[1], serde_json::to_string(&out).unwrap()).unwrap();
+    }
+}
+
+/// run one child over `trees`; None when it died or timed out
+fn run_child(dir: &Path, trees: &[&Tree], secs: u64) -> Option<Vec<Observed>> {
+    let inp = dir.join("batch_in.json");
+    let outp = dir.join("batch_out.json");
+    let _ = std::fs::remove_file(&outp);
+    std::fs::write(&inp, serde_json::to_string(&trees.iter().map(|t| tree_json(t)).collect::<Vec<_>>()).unwrap()).unwrap();
+    let mut ch = std::process::Command::new(std::env::current_exe().unwrap())
+        .arg("c11-child")
+        .arg(&inp)
+        .arg(&outp)
+        .stdout(std::process::Stdio::null())
+        .stderr(std::process::Stdio::null())
+        .spawn()
+        .ok()?;
+    let mut waited = 0u64;
+    let ok = loop {
+        match ch.try_wait() {
+            Ok(Some(st)) => break st.success(),
+            Ok(None) => {
+                if waited > secs * 100 {
+                    let _ = ch.kill();
+                    let _ = ch.wait();
+                    break false;
+                }
+                std::thread::sleep(std::time::Duration::from_millis(10));
+                waited += 1;
+            }
+            Err(_) => break false,
+        }
+    };
+    if !ok {
+        return None;
+    }
+    let v: Vec<Value> = serde_json::from_str(&std::fs::read_to_string(&outp).ok()?).ok()?;
+    if v.len() != trees.len() {
+        return None;
+    }
+    Some(v.iter().map(|o| Observed { fake: lobs_from(&o["fake"]), real: lobs_from(&o["real"]), bal: o["bal"].as_u64().unwrap_or(0) as u8, bal_detail: o["bal_detail"].as_str().unwrap_or("").to_string() }).collect())
+}
+
+/// observations for a batch, in child processes: a stack overflow or a hang of the implementation
+/// is an observation (st 6) of the case that caused it, not the end of the run
+fn observe_batch(dir: &Path, trees: &[&Tree]) -> Vec<Observed> {
+    if let Some(v) = run_child(dir, trees, 120) {
+        return v;
+    }
+    trees
+        .iter()
+        .map(|t| match run_child(dir, &[*t], 20) {
+            Some(mut v) => v.remove(0),
+            None => crashed("the process running the loader aborted (stack overflow) or hung"),
+        })
+        .collect()
 }
 
 // ---------- generator ----------
@@ -664,13 +755,32 @@ fn nontrivial(t: &Tree) -> bool {
     loaded >= 2 && special
 }
 
-fn emit(sh: &mut Shards, st: &mut Stats, sc: &Scratch, seq: &mut usize, t: &Tree, tags: &BTreeSet<String>, source: &str) {
-    if !acyclic(t, 8) {
+struct Pending {
+    t: Tree,
+    tags: BTreeSet<String>,
+    source: String,
+}
+
+fn queue(q: &mut Vec<Pending>, st: &mut Stats, t: Tree, tags: BTreeSet<String>, source: &str) {
+    if !acyclic(&t, 8) {
         st.count("discarded:include cycle (the loader has no visited-set: F6 of C06)");
         return;
     }
-    *seq += 1;
-    let o = observe(sc, *seq, t);
+    q.push(Pending { t, tags, source: source.to_string() });
+}
+
+fn flush(q: &mut Vec<Pending>, sh: &mut Shards, st: &mut Stats, dir: &Path) {
+    for chunk in q.chunks(100) {
+        let trees: Vec<&Tree> = chunk.iter().map(|p| &p.t).collect();
+        let obs = observe_batch(dir, &trees);
+        for (p, o) in chunk.iter().zip(obs.iter()) {
+            record(sh, st, &p.t, o, &p.tags, &p.source);
+        }
+    }
+    q.clear();
+}
+
+fn record(sh: &mut Shards, st: &mut Stats, t: &Tree, o: &Observed, tags: &BTreeSet<String>, source: &str) {
     st.eval(t, nontrivial(t));
     st.count(&format!("source:{}", source));
     st.count(&format!("kind:{}", ["cut of a ledger", "cut with an include that matches nothing", "free-form tree"][t.kind.min(2) as usize]));
@@ -680,15 +790,15 @@ fn emit(sh: &mut Shards, st: &mut Stats, sc: &Scratch, seq: &mut usize, t: &Tree
     let nfiles = t.files.iter().filter(|(_, es)| !es.iter().any(|e| matches!(e, AEntry::Garbage(_)))).count();
     st.count(&format!("files (without decoys):{}", if nfiles >= 8 { "8+".to_string() } else { nfiles.to_string() }));
     st.add("decoy files (dot-files, deeper levels, other suffixes)", (t.files.len() - nfiles) as u64);
-    st.count(&format!("impl:{}", ["ok", "IO NotFound", "IO other", "Parse", "other error", "panic"][o.fake.st.min(5) as usize]));
+    st.count(&format!("impl:{}", ["ok", "IO NotFound", "IO other", "Parse", "other error", "panic", "process aborted or hung"][o.fake.st.min(6) as usize]));
     if o.fake.trace != o.real.trace || o.fake.st != o.real.st {
         st.count("impl:in-memory and real file system DISAGREE");
     }
     st.count(&format!("ledger entries:{}", t.ledger.len()));
     if st.samples.len() < 2 || (st.samples.len() < 5 && nontrivial(t) && t.files.len() <= 7 && source == "random") {
-        st.sample(replay(t, &o), 5);
+        st.sample(replay(t, o), 5);
     }
-    sh.push(term(t, &o), vec![replay(t, &o)]);
+    sh.push(term(t, o), vec![replay(t, o)]);
 }
 
 pub fn run(o: &Opts) {
@@ -701,7 +811,7 @@ pub fn run(o: &Opts) {
     st.rule = "a case = a ledger of 0-10 identifiable transactions (running balance assertions make the order matter) cut at entry boundaries into a random tree of files (depth <= 4; sub-directories, parent and sibling directories through .., ./, up-and-back and absolute written paths; literal includes; glob includes *.ledger, prefix*.ledger, ?.ledger, dir*/f.ledger and */f.ledger whose matches are assigned consecutive chunks in PathBuf order; decoy files that must not match: dot-files, deeper levels, other suffixes; names with '.', '-', ' ', '+' and non-ASCII letters so that component order differs from string order), one sixth of them with one include changed to match nothing; loaded with Loader::load on FakeFileSystem and with new_loader on a real directory, plus report::process balances of the tree vs the uncut ledger; non-trivial = at least 2 loaded files and at least one glob or .. include; distinct by the whole tree".into();
     st.assumptions.push("no include cycles (the loader would recurse until the stack overflows: F6 of C06, not repaired here); patterns use only literals, * and ? (no [...] or **); . and .. components occur only before the first wildcard component and never climb above the tree's top directory; no pattern's last component matches a directory; no symlinks, valid UTF-8 names and contents".into());
     let sc = Scratch::new("c11");
-    let mut seq = 0usize;
+    let mut q: Vec<Pending> = Vec::new();
     let mut files: Vec<PathBuf> = Vec::new();
     let replay_only = if let Some(i) = o.extra.iter().position(|a| a == "--replay") {
         files.push(o.extra[i + 1].clone().into());
@@ -717,7 +827,7 @@ pub fn run(o: &Opts) {
         if let Ok(text) = std::fs::read_to_string(&p) {
             if let Ok(v) = serde_json::from_str::<Value>(&text) {
                 if let Some(t) = from_json(&v) {
-                    emit(&mut sh, &mut st, &sc, &mut seq, &t, &BTreeSet::new(), "corpus");
+                    queue(&mut q, &mut st, t, BTreeSet::new(), "corpus");
                 }
             }
         }
@@ -727,8 +837,9 @@ pub fn run(o: &Opts) {
         let n = if o.thorough { 12000 } else { 1500 };
         for _ in 0..n {
             let (t, tags) = gen_tree(&mut r);
-            emit(&mut sh, &mut st, &sc, &mut seq, &t, &tags, "random");
+            queue(&mut q, &mut st, t, tags, "random");
         }
     }
+    flush(&mut q, &mut sh, &mut st, &sc.dir);
     sh.finish(&st);
 }
